@@ -172,6 +172,38 @@ func runPrimImmut(p *core.Prog) *core.Result {
 				}
 			}
 		}
+		// atomic writes are still writes: a race-free memo inside a shared primitive makes the value
+		// carry state of the first Runtime that used it (e.g. a hash computed with that Runtime's seed)
+		for _, f := range methods {
+			recv := f.Params[0]
+			core.AllInstrs(f, func(in ssa.Instruction) {
+				c, ok := in.(ssa.CallInstruction)
+				if !ok {
+					return
+				}
+				sc := c.Common().StaticCallee()
+				if sc == nil || sc.Pkg == nil || sc.Pkg.Pkg.Path() != "sync/atomic" || len(c.Common().Args) == 0 {
+					return
+				}
+				switch sc.Name() {
+				case "Store", "Add", "Swap", "CompareAndSwap", "And", "Or",
+					"StoreUint32", "StoreUint64", "StoreInt32", "StoreInt64", "StorePointer", "AddUint32", "AddUint64", "AddInt32", "AddInt64",
+					"SwapUint32", "SwapUint64", "CompareAndSwapUint32", "CompareAndSwapUint64", "CompareAndSwapPointer":
+				default:
+					return
+				}
+				if r := core.RootOf(c.Common().Args[0]); r.Param != recv {
+					return
+				}
+				key := core.FuncName(f) + ":receiver-atomic-write"
+				if how, ok := synchronisedWriter(p, f, nt); ok {
+					res.OK(key, p.Pos(c.Pos()), how)
+				} else {
+					typeOK = false
+					res.Bad(key, p.Pos(c.Pos()), fmt.Sprintf("method of the primitive value type %s updates a field of its receiver atomically outside the function run by its sync.Once: there is no data race, but the shared value now memoises something computed by whichever Runtime came first (a hash under that Runtime's random seed, say), so other Runtimes get results they would not get in isolation", name))
+				}
+			})
+		}
 		if typeOK {
 			res.OK(name+":immutable", p.Pos(nt.Obj().Pos()), fmt.Sprintf("%d methods, every receiver write synchronised or absent", len(methods)))
 		}
